@@ -17,7 +17,9 @@ Record obs := {
   ob_closed : bool;
   ob_drops : list N;         (* uids reported dropped for this client *)
   ob_snap : option sview;    (* None: no client object with this id exists *)
-  ob_fault : bool }.         (* every write to the client's connection failed during this step (fault injection) *)
+  ob_fault : bool;           (* every write to the client's connection failed during this step (fault injection) *)
+  ob_overlap : bool }.       (* forced schedule: a second allocator was inside Client.NextPacketID's critical section
+                                while the first was parked there *)
 
 Definition eqb_list (l1 l2 : list N) : bool := beq_bytes l1 l2.
 Definition inb (x : N) (l : list N) : bool := existsb (N.eqb x) l.
@@ -108,7 +110,7 @@ Definition stepx (c : cfg) (s : st) (o : op) (ob : obs) (orc : list N) : st * li
 (* model observation of one step in the same shape *)
 Definition obs_of_model (s' : st) (outs : list out) : obs :=
   {| ob_pkts := filter is_pkt outs; ob_fwds := fwds_of outs; ob_closed := negb (s_conn s');
-     ob_drops := drops_of outs; ob_snap := sview_of s'; ob_fault := false |}.
+     ob_drops := drops_of outs; ob_snap := sview_of s'; ob_fault := false; ob_overlap := false |}.
 
 (* comparison of projected observables; a DISCONNECT written to an MQTT 3 client is C23's business *)
 Definition no_disc (l : list out) : list out := filter (fun p => negb (pkt_ty p =? T_DISCONNECT)) l.
@@ -429,7 +431,8 @@ Fixpoint chk10_pkts (pe : list pend) (l : list out) : option viol :=
 
 Definition chk10 (c : cfg) (v : view) (o : op) (ob : obs) (v1 : view) : option viol :=
   let sn := match ob_snap ob with Some sv => sv_infl sv | None => [] end in
-  orelse (chk10_pkts (v_pend v1) (ob_pkts ob))
+  orelse (if ob_overlap ob then V 6 0 0 0 else None)     (* clause 6: identifier allocation is mutually exclusive *)
+ (orelse (chk10_pkts (v_pend v1) (ob_pkts ob))
     (match o with
      | InPublish qos pid _ _ _ =>
          (* clause 3: the client's own identifier leaves the broker's outbound record alone *)
@@ -474,7 +477,7 @@ Definition chk10 (c : cfg) (v : view) (o : op) (ob : obs) (v1 : view) : option v
              end
            else None) (v_prev v)
      | _ => None
-     end).
+     end)).
 
 (* ---- C11: receive maximum in both directions, no quota leak, held-back messages are sent ---- *)
 Definition nlen {A} (l : list A) : N := N.of_nat (length l).
@@ -762,7 +765,8 @@ Definition as_obs (v : val) : option obs :=
       do pk <- map_opt as_opkt pkts; do fw <- as_NL fwds; do cl <- as_bool closed; do dr <- as_NL drops;
       do sn <- as_sview snap;
       Some {| ob_pkts := pk; ob_fwds := fw; ob_closed := cl; ob_drops := dr; ob_snap := sn;
-              ob_fault := match rest with [VN 1] => true | _ => false end |}
+              ob_fault := match rest with VN 1 :: _ => true | _ => false end;
+              ob_overlap := match rest with [_; VN 1] => true | _ => false end |}
   | _ => None
   end.
 Definition as_step (v : val) : option (op * obs) :=
@@ -836,7 +840,7 @@ Fixpoint model_along (c : cfg) (s : st) (h : list (op * obs)) : list (op * obs) 
       let '(s', outs) := stepx c s o ob (orc_for s o ob) in
       (o, {| ob_pkts := ob_pkts (obs_of_model s' outs); ob_fwds := ob_fwds (obs_of_model s' outs);
              ob_closed := ob_closed (obs_of_model s' outs); ob_drops := ob_drops (obs_of_model s' outs);
-             ob_snap := ob_snap (obs_of_model s' outs); ob_fault := ob_fault ob |}) :: model_along c s' r
+             ob_snap := ob_snap (obs_of_model s' outs); ob_fault := ob_fault ob; ob_overlap := false |}) :: model_along c s' r
   end.
 
 (* Implementation and model differ although the observation satisfies the specification: if the first difference is
@@ -917,7 +921,7 @@ Fixpoint model_trace_f (c : cfg) (s : st) (h : list (op * list N * bool)) : list
       let '(s', outs) := (if f then step_fault c s o orc else step c s o orc) in
       (o, {| ob_pkts := ob_pkts (obs_of_model s' outs); ob_fwds := ob_fwds (obs_of_model s' outs);
              ob_closed := ob_closed (obs_of_model s' outs); ob_drops := ob_drops (obs_of_model s' outs);
-             ob_snap := ob_snap (obs_of_model s' outs); ob_fault := f |}) :: model_trace_f c s' r
+             ob_snap := ob_snap (obs_of_model s' outs); ob_fault := f; ob_overlap := false |}) :: model_trace_f c s' r
   end.
 Definition model_verdict_f (prop : N) (c : cfg) (h : list (op * list N * bool)) : option (N * option bytes) :=
   match rs_viol (replay prop c init_st view0 taint0 (model_trace_f c init_st h) 0 true) with
